@@ -333,6 +333,8 @@ type runResult struct {
 	Batches      int            `json:"batches_anchored"`
 	Anchored     int            `json:"operations_anchored"`
 	Discarded    int            `json:"operations_discarded_expired"`
+	AllExpired   int            `json:"batches_all_expired_committed_without_anchor"`
+	AllExpSizes  map[string]int `json:"all_expired_batch_sizes"`
 	Deferred     int            `json:"operations_deferred"`
 	Boundary     int            `json:"batches_followed_by_other_version"`
 	InQueue      int            `json:"left_in_queue"`
@@ -345,7 +347,7 @@ type runResult struct {
 }
 
 func runChild(p params) runResult {
-	res := runResult{Params: p, BatchSizes: map[string]int{}, Violations: []violation{}}
+	res := runResult{Params: p, BatchSizes: map[string]int{}, AllExpSizes: map[string]int{}, Violations: []violation{}}
 	rng := rand.New(rand.NewSource(p.Seed*7919 + 13))
 	kp := world.NewKeyPool(12)
 	live, expired := buildBank(kp, p.DIDs)
@@ -543,6 +545,20 @@ func runChild(p params) runResult {
 		}
 		if pr.Anchored == -1 {
 			res.AnchorFailed++
+		}
+		if pr.Anchored == 2 {
+			// F16: every operation of the batch expired - committed without an anchor write
+			res.AllExpired++
+			res.AllExpSizes[fmt.Sprint(len(pr.IDs))]++
+			if len(pr.Additional) != 0 || len(pr.Expired) != len(pr.IDs) {
+				viol("all_expired_batch_defers_nothing", fmt.Sprintf("batch %v without anchor string: expired %v, additional %v", pr.IDs, pr.Expired, pr.Additional), pr)
+			}
+		}
+		if pr.OK && pr.Anchor == "" && pr.Anchored != 2 {
+			viol("no_anchor_string_only_when_every_operation_expired", fmt.Sprintf("batch %v: empty anchor string, expired %v", pr.IDs, pr.Expired), pr)
+		}
+		if pr.OK && pr.Anchor != "" && len(pr.Expired)+len(pr.Additional) >= len(pr.IDs) {
+			viol("anchor_string_only_with_included_operations", fmt.Sprintf("batch %v: anchor string %q, expired %v, additional %v", pr.IDs, pr.Anchor, pr.Expired, pr.Additional), pr)
 		}
 		if uint(len(pr.IDs)) == p.Max {
 			res.CutFull++
@@ -771,6 +787,7 @@ type evHandler struct {
 	inner protocol.OperationHandler
 	ev    *[]string
 	fail  func() bool
+	noAnc *int // prepares that returned no anchor string (every operation expired, F16)
 }
 
 func (h *evHandler) PrepareTxnFiles(ops []*operation.QueuedOperation) (*protocol.AnchoringInfo, error) {
@@ -783,6 +800,9 @@ func (h *evHandler) PrepareTxnFiles(ops []*operation.QueuedOperation) (*protocol
 		panic("unexpected handler error: " + err.Error())
 	}
 	*h.ev = append(*h.ev, "EPrepare true []")
+	if info.AnchorString == "" && h.noAnc != nil {
+		*h.noAnc++
+	}
 	return info, nil
 }
 
@@ -817,6 +837,7 @@ func emitLivenessCases(path string, seed int64, n int) error {
 	bank := append(append([]wOp{}, live...), expired...)
 	tyCode := map[operation.Type]int{operation.TypeCreate: 1, operation.TypeUpdate: 2, operation.TypeRecover: 3, operation.TypeDeactivate: 4}
 	var cases []string
+	nNoAnchor := 0
 	for ci := 0; ci < n; ci++ {
 		max := uint(1 + rng.Intn(4))
 		var ev []string
@@ -833,7 +854,7 @@ func emitLivenessCases(path string, seed int64, n int) error {
 			pr.GenesisTime = g
 			pr.MaxOperationCount = max
 			v := world.NewVersion(fmt.Sprint(g), pr, world.VersionOpts{CAS: mocks.NewMockCasClient(nil), ParserOpts: []operationparser.Option{operationparser.WithAnchorTimeValidator(expiryValidator{})}})
-			v.HandlerOverride = &evHandler{inner: v.Handler, ev: &ev, fail: failNow(1)}
+			v.HandlerOverride = &evHandler{inner: v.Handler, ev: &ev, fail: failNow(1), noAnc: &nNoAnchor}
 			cl.Versions = append(cl.Versions, v)
 		}
 		w, err := batch.New("did:sidetree", &wContext{pc: cl, a: &evAnchor{ev: &ev, fail: failNow(2), log: &alog, ver: &aver}, q: q},
@@ -903,6 +924,9 @@ func emitLivenessCases(path string, seed int64, n int) error {
 	b.WriteString("Definition cases : list lcase := [\n" + strings.Join(cases, ";\n") + "].\n")
 	b.WriteString("Definition M := Eval vm_compute in l_mismatches 0%nat cases.\nPrint M. (* expected: M = [] *)\n")
 	b.WriteString("Definition NTicks := Eval vm_compute in fold_right (fun c n => (length (lc_ticks c) + n)%nat) 0%nat cases.\nPrint NTicks.\n")
+	b.WriteString(fmt.Sprintf("(* prepares of the real handler that returned no anchor string (every operation expired): %d *)\n", nNoAnchor))
+	b.WriteString("Definition NAllExpired := Eval vm_compute in fold_right (fun c n => (l_all_expired c + n)%nat) 0%nat cases.\nPrint NAllExpired.\n")
+	fmt.Printf("all-expired prepares (real handler): %d\n", nNoAnchor)
 	return os.WriteFile(path, []byte(b.String()), 0o644)
 }
 
@@ -944,6 +968,23 @@ Definition l_check (c : lcase) : bool :=
   let '(ok, s) := run_ticks (lc_max c) (lc_expired c) (init []) (lc_ticks c) in
   ok && log_eqb (anchored s) (lc_log c).
 Definition l_mismatches (base : nat) (l : list lcase) : list nat := mismatches_from l_check base l.
+(* F16: batches the MODEL commits without an anchor write (EPrepare true directly followed by EAck in the predicted
+   trace); must equal the number of prepares of the real handler that returned no anchor string *)
+Fixpoint count_prep_ack (l : list event) : nat :=
+  match l with
+  | EPrepare true _ :: ((EAck :: _) as r) => S (count_prep_ack r)
+  | _ :: r => count_prep_ack r
+  | [] => 0%nat
+  end.
+Fixpoint ticks_all_expired (max : nat) (ex : list Z) (s : wstate) (l : list ltick) : nat :=
+  match l with
+  | [] => 0%nat
+  | t :: r =>
+    let s1 := run max s (adds (lt_adds t)) in
+    let ev := tick_events max (mk_oracle ex (lt_kind t) (lt_k t)) (lt_force t) s1 in
+    (count_prep_ack ev + ticks_all_expired max ex (run max s1 ev) r)%nat
+  end.
+Definition l_all_expired (c : lcase) : nat := ticks_all_expired (lc_max c) (lc_expired c) (init []) (lc_ticks c).
 `
 
 // deliberate data race: checks that a race report really ends the child with the race exit code
@@ -1225,6 +1266,7 @@ func main() {
 		totals["batches_anchored"] += r.Batches
 		totals["operations_anchored"] += r.Anchored
 		totals["operations_discarded_expired"] += r.Discarded
+		totals["batches_all_expired_committed_without_anchor"] += r.AllExpired
 		totals["operations_deferred"] += r.Deferred
 		totals["prepare_calls"] += r.Prepares
 		totals["prepare_failed"] += r.PrepFailed
@@ -1241,6 +1283,10 @@ func main() {
 		count("failed_batches_per_run", bucket(r.PrepFailed+r.AnchorFailed, 1, 5, 20, 50), 1)
 		count("deferred_per_run", bucket(r.Deferred, 1, 10, 50, 200), 1)
 		count("expired_per_run", bucket(r.Discarded, 1, 10, 30, 100), 1)
+		count("all_expired_batches_per_run", bucket(r.AllExpired, 1, 2, 5, 20), 1)
+		for k, n := range r.AllExpSizes {
+			count("all_expired_batch_size", k, n)
+		}
 		count("boundaries_per_run", bucket(r.Boundary, 1, 3, 10, 30), 1)
 		count("drain_ms", bucket(int(r.DrainMs), 5, 20, 100, 1000), 1)
 		for k, n := range r.BatchSizes {
